@@ -36,12 +36,12 @@ var properties = []Property{
 	},
 	 
 	{ID: "C04", Title: "Tokenization is lossless: token values concatenate to the input",
-		Rules:     []string{"SCAN.balance", "SCAN.fallback", "PANIC.progress"},
+		Rules:     []string{"SCAN.balance", "SCAN.fallback", "PANIC.progress", "SCAN.symbol", "SYM.ancestry", "STATE.tokenize", "STATE.lookahead"},
 		Technique: "path-sensitive abstract interpretation of every tokenizer state over a symbolic scanner (consumed-character stack vs. builder contents)",
 	},
 	 
 	{ID: "C05", Title: "Reused instances give history-independent results",
-		Rules:     []string{"STATE.reset", "STATE.lookahead", "SYM.ancestry", "PURE.calc", "PURE.tmpl", "PURE.global"},
+		Rules:     []string{"STATE.tokenize", "STATE.parse", "STATE.template", "STATE.lookahead", "SYM.ancestry", "PURE.calc", "PURE.tmpl", "PURE.global"},
 		Technique: "write-set of each reusable operation (effect analysis) versus the unconditional store set of its reset routine; typestate of the one-token look-ahead",
 	},
 	 
@@ -94,7 +94,7 @@ var properties = []Property{
 	},
 	 
 	{ID: "C17", Title: "Character-class maps answer with the latest covering registration",
-		Rules:     []string{"MAP.flow", "MAP.order", "MAP.split", "MAP.disable", "MAP.callers", "PANIC.index"},
+		Rules:     []string{"MAP.flow", "MAP.order", "MAP.split", "MAP.disable", "MAP.callers", "MAP.dispatch", "PANIC.index"},
 		Technique: "value-flow of Lookup's results, insertion/search order agreement, boundary-constant agreement, dominating-guard bounds proof",
 	},
 	 {ID: "C18"}, 
